@@ -145,7 +145,7 @@ class C14(CheckBase):
     def gen(self, ch: Choices, tier: str) -> dict:
         if ch.coin(0.08):
             return self.gen_xproc(ch, tier)
-        if ch.coin(0.35):
+        if ch.coin(0.4):
             return self.gen_lazyrace(ch, tier)
         kind = ch.weighted([(3, "string"), (4, "file"), (4, "loader"),
                             (2, "cached")], "kind")
@@ -200,7 +200,7 @@ class C14(CheckBase):
         name = ch.pick(["self.pt", "lib.pt", "page.pt", "main.pt",
                         "x/page.pt"])
         shared = [{"kind": "loader"}] if via_loader else \
-            [{"kind": "file", "name": name}]
+            [{"kind": ch.pick(["file", "cachedfile"]), "name": name}]
         tasks = []
         for t in range(3):
             ops = []
@@ -213,14 +213,17 @@ class C14(CheckBase):
                 else:
                     ops.append(["render", 0, t + 1])
             tasks.append(ops)
-        d = ch.pick([2, 3, 3, 4])
+        d = ch.pick([2, 3, 3, 4, 5])
+        cached = shared[0]["kind"] == "cachedfile"
         if via_loader:
             shared[0]["obs_name"] = name
         return {"shared": shared, "tasks": tasks, "coarse": False,
                 "focus": True, "observer": ch.coin(0.8),
                 "sched": {"kind": "pctacc",
                           "prios": ch.shuffle([1, 2, 3]),
-                          "fracs": [[ch.choose(3), ch.choose(100000) / 100000.0]
+                          # (task, position, at a file-system call?)
+                          "fracs": [[ch.choose(3), ch.choose(100000) / 100000.0,
+                                     cached and ch.coin(0.6)]
                                     for _ in range(d)]}}
 
     def gen_xproc(self, ch: Choices, tier: str) -> dict:
@@ -508,9 +511,9 @@ class C14(CheckBase):
             if labels is not None:
                 orig = sched.yield_point
 
-                def yp(label, interesting=False):
+                def yp(label, interesting=False, **kw):
                     labels.append(interesting)
-                    return orig(label, interesting)
+                    return orig(label, interesting, **kw)
                 sched.yield_point = yp      # type: ignore[method-assign]
             done_ops = [0] * len(shared)
             for ti, ops in enumerate(case["tasks"]):
@@ -576,15 +579,24 @@ class C14(CheckBase):
             d = self._dry_cache.get(dkey)
             if d is None:
                 labels = []
-                dsched, _, _ = phase("dry", {"kind": "fifo"}, labels)
+                dsched, _, dres = phase("dry", {"kind": "fifo"}, labels)
                 if dsched.failure is not None:
                     return {"harness": "dry run failed: %r" % dsched.failure,
                             "violations": [], "digest": log.digest(),
                             "events": log.count}
+                for out in dres:
+                    for op, r_ in out:
+                        if r_ != exp[canonical(op)] and r_[0] == "exc" and \
+                                r_[1] in ("TypeError", "AttributeError") and \
+                                "yield_point" in str(r_):
+                            return {"harness": "dry run broke: %s" % (r_,),
+                                    "violations": [], "digest": log.digest(),
+                                    "events": log.count}
                 hot = [i + 1 for i, x in enumerate(labels) if x]
                 d = {"n": len(labels), "hot": hot,
                      "acc": max([t.access_events for t in dsched.tasks]
-                                or [0])}
+                                or [0]),
+                     "fs": max([t.fs_events for t in dsched.tasks] or [0])}
                 if len(self._dry_cache) > 2000:
                     self._dry_cache.clear()
                 self._dry_cache[dkey] = d
@@ -593,9 +605,15 @@ class C14(CheckBase):
                 # run's own events are never logged
                 pass
             if pol["kind"] == "pctacc":
+                pts = []
+                for fr in pol["fracs"]:
+                    t, frac = fr[0], fr[1]
+                    if len(fr) > 2 and fr[2] and d.get("fs"):
+                        pts.append([t, 1 + int(frac * d["fs"]), "fs"])
+                    else:
+                        pts.append([t, 1 + int(frac * max(d["acc"], 1))])
                 pol = {"kind": "pctacc", "prios": pol["prios"],
-                       "points": [[t, 1 + int(frac * max(d["acc"], 1))]
-                                  for t, frac in pol["fracs"]]}
+                       "points": pts}
             else:
                 changes = []
                 for frac, snap in pol["fracs"]:
